@@ -185,7 +185,9 @@ pub fn run_c15(ctx: Ctx) -> ! {
         ctx.machinery("C15: no case reached the oracle");
     }
     if !vacuous.is_empty() && !restricted(&ctx) {
-        rep.observe(format!("catalogue operators with no compared case (not claimed): {}", vacuous.join(",")));
+        // every claimed operator must reach the oracle at least once (guards against e.g. an encoder
+        // problem that makes every model of an operator fail to load)
+        ctx.machinery(&format!("C15: claimed catalogue operators with no case reaching the oracle: {}", vacuous.join(",")));
     }
     let axes: Vec<Json> = work.entries.iter().filter(|e| rep.per_op.contains_key(e.op)).map(|e| json!({"op": e.op, "axes": e.axes, "cases": rep.per_op[e.op].get("cases")})).collect();
     let coverage = json!({
